@@ -19,12 +19,11 @@ Modelling decisions, each visible in the generated text:
     the reading is stored through P when gt_rc = 0.
   * comparison operators have the C value 0/1 (b2z)."""
 import os, re
-import sys
-sys.path.insert(0, os.path.dirname(os.path.abspath(__file__)))
-import importlib
-import _ctrans
-importlib.reload(_ctrans)
-from _ctrans import TErr, Fn, find_fn, strip_comments
+import importlib.util
+_spec = importlib.util.spec_from_file_location("facts__ctrans", os.path.join(os.path.dirname(os.path.abspath(__file__)), "_ctrans.py"))
+_ctrans = importlib.util.module_from_spec(_spec)
+_spec.loader.exec_module(_ctrans)      # by path: tools/facts must never be on sys.path (facts/base64.py would shadow the stdlib module)
+TErr, Fn, find_fn, strip_comments = _ctrans.TErr, _ctrans.Fn, _ctrans.find_fn, _ctrans.strip_comments
 
 
 NAMES = ["clock_get_timespec", "clock_is_timespec_le", "clock_is_timespec_expired"]
